@@ -251,7 +251,9 @@ def r_static(ctx: Ctx, model):
     """module-wide who-may rules that need no path reasoning"""
     ctx.rule("S-who: commit/rollback/close/connect/executescript/isolation_level/autocommit occur only inside "
              "with_connection (and db_execute_general for DDL); PRAGMA strings in the package are only foreign_keys = ON")
-    allowed = {"pygaps.parsing.sqlite.with_connection", "pygaps.utilities.sqlite_utilities.db_execute_general"}
+    from ..sites import helper_closure
+    # plus private helpers every reference to which is a direct call from one of the two (the extracted body of a permitted function)
+    allowed = helper_closure(model, {"pygaps.parsing.sqlite.with_connection", "pygaps.utilities.sqlite_utilities.db_execute_general"})
     n = 0
     for fi in model.all_functions():
         for node in ast.walk(fi.node):
